@@ -29,6 +29,7 @@ import (
 
 	"github.com/hashicorp/consul/agent/consul/state"
 	"github.com/hashicorp/consul/agent/structs"
+	"github.com/hashicorp/consul/proto/private/pbpeering"
 )
 
 // projectedFields: table -> top-level field names dropped from the row in both renderings.
@@ -50,16 +51,90 @@ type svcInfo struct {
 	tags []string
 }
 
+// maskSet: the known deviations of a restored store (one bit per known finding). A rendering
+// with a mask set shows what a restore is known to produce instead of the donor's value.
+type maskSet uint
+
+const (
+	mUsage         maskSet = 1 << iota // usage rows: index of the row / zero-count rows (finding 14)
+	mCheckRefresh                      // health checks: ServiceName/ServiceTags re-copied from the service
+	mGatewayStamp                      // gateway-services rows: RaftIndex (and ServiceKind of wildcard rows) rebuilt from the config entry
+	mTopologyStamp                     // mesh-topology rows: RaftIndex re-stamped with the snapshot's last index
+	mPeeringIndex                      // index rows "peering"/"peering-trust-bundles": overwritten by the last restored row
+	mDialerSecret                      // peering-secret-uuids: a dialing peer's stream secret is added by the restore
+	mStaleKindName                     // kind-service-names: rows no registered instance backs any more are not rebuilt
+	mWildcardUnbacked                  // gateway-services / mesh-topology: which names a wildcard gateway maps depends on the write order
+	mAll           = mUsage | mCheckRefresh | mGatewayStamp | mTopologyStamp | mPeeringIndex | mDialerSecret | mStaleKindName | mWildcardUnbacked
+)
+
+var maskList = []maskSet{mUsage, mCheckRefresh, mTopologyStamp, mGatewayStamp, mPeeringIndex, mDialerSecret, mStaleKindName, mWildcardUnbacked}
+
+var maskKind = map[maskSet]string{
+	mUsage:         "usage-row-index-after-restore",
+	mCheckRefresh:  "check-service-fields-refreshed-by-restore",
+	mGatewayStamp:  "gateway-services-rows-restamped-by-restore",
+	mTopologyStamp: "mesh-topology-rows-restamped-by-restore",
+	mPeeringIndex:  "peering-index-rows-after-restore",
+	mDialerSecret:  "dialer-secret-uuid-added-by-restore",
+	mStaleKindName: "stale-kind-service-name-dropped-by-restore",
+	mWildcardUnbacked: "wildcard-gateway-mappings-depend-on-write-order",
+}
+
+// tableMask: which deviation a strict-only difference in a table belongs to.
+var tableMask = map[string]maskSet{
+	"usage": mUsage, "checks": mCheckRefresh, "gateway-services": mGatewayStamp, "mesh-topology": mTopologyStamp,
+	"index": mPeeringIndex, "peering-secret-uuids": mDialerSecret, "kind-service-names": mStaleKindName,
+}
+
+// indexRowMask: index-table rows whose value a known deviation changes (directly, or later in a
+// suffix as a consequence: e.g. a restored gateway-services row that already equals what a later
+// registration would write is not written again, so the table's index row is not bumped).
+func indexRowMask(key string) maskSet {
+	switch {
+	case key == "peering" || key == "peering-trust-bundles":
+		return mPeeringIndex
+	case strings.HasPrefix(key, "kind_service_names."):
+		return mStaleKindName
+	case key == "gateway-services" || key == "mesh-topology":
+		return mGatewayStamp
+	}
+	return 0
+}
+
+// tableMask2: a second deviation that can explain a strict-only difference of the table (decided
+// by whether the rows differ in number).
+var tableMask2 = map[string]maskSet{"gateway-services": mWildcardUnbacked, "mesh-topology": mWildcardUnbacked}
+
 type canonCtx struct {
-	lenient bool
-	svcs    map[svcKey]svcInfo // services of the store the value came from
+	masks maskSet
+	svcs  map[svcKey]svcInfo // services of the store the value came from
+	kinds map[string]bool    // "kind\x00name" pairs some registered local instance backs
 }
 
 var (
 	timeType     = reflect.TypeOf(time.Time{})
 	protoMsgType = reflect.TypeOf((*proto.Message)(nil)).Elem()
 	hcType       = reflect.TypeOf(structs.HealthCheck{})
+	gsType       = reflect.TypeOf(structs.GatewayService{})
 )
+
+// unbackedWildcard: a gateway-services mapping derived from a wildcard ("*") listener / linked
+// service. Which names get such a mapping depends on the order in which the gateway's config
+// entry, service-defaults destinations and service/proxy registrations were written (the
+// registration path, the service-defaults path and the gateway-config path use different
+// predicates); a restore replays registrations first and config entries in (kind, name) order.
+func (c *canonCtx) unbackedWildcard(v reflect.Value) bool {
+	for v.Kind() == reflect.Ptr || v.Kind() == reflect.Interface {
+		if v.IsNil() {
+			return false
+		}
+		v = v.Elem()
+	}
+	if v.Type() != gsType {
+		return false
+	}
+	return v.FieldByName("FromWildcard").Bool()
+}
 
 func (c *canonCtx) render(v interface{}) string {
 	var sb strings.Builder
@@ -108,7 +183,9 @@ func (c *canonCtx) walk(v reflect.Value, sb *strings.Builder, depth int, skip []
 			return
 		}
 		if v.Kind() == reflect.Interface {
-			sb.WriteString("(" + v.Elem().Type().String() + ")")
+			if ek := v.Elem().Kind(); ek == reflect.Struct || ek == reflect.Ptr {
+				sb.WriteString("(" + v.Elem().Type().String() + ")")
+			}
 		}
 		c.walk(v.Elem(), sb, depth+1, skip)
 	case reflect.Struct:
@@ -130,7 +207,16 @@ func (c *canonCtx) walk(v reflect.Value, sb *strings.Builder, depth int, skip []
 			return
 		}
 		var refreshed *svcInfo
-		if c.lenient && t == hcType && c.svcs != nil {
+		if c.masks&mGatewayStamp != 0 && t == gsType {
+			skip = append(append([]string{}, skip...), "RaftIndex")
+			if v.FieldByName("FromWildcard").Bool() || v.FieldByName("GatewayKind").String() == string(structs.ServiceKindIngressGateway) {
+				skip = append(skip, "ServiceKind")
+			}
+		}
+		if c.masks&mTopologyStamp != 0 && t.Name() == "upstreamDownstream" {
+			skip = append(append([]string{}, skip...), "RaftIndex")
+		}
+		if c.masks&mCheckRefresh != 0 && t == hcType && c.svcs != nil {
 			sid := v.FieldByName("ServiceID").String()
 			if sid != "" {
 				k := svcKey{strings.ToLower(v.FieldByName("Node").String()), strings.ToLower(sid), strings.ToLower(v.FieldByName("PeerName").String())}
@@ -214,10 +300,15 @@ func (c *canonCtx) walk(v reflect.Value, sb *strings.Builder, depth int, skip []
 			return
 		}
 		sb.WriteString("[")
+		n := 0
 		for i := 0; i < v.Len(); i++ {
-			if i > 0 {
+			if c.masks&mWildcardUnbacked != 0 && c.unbackedWildcard(v.Index(i)) {
+				continue
+			}
+			if n > 0 {
 				sb.WriteString(",")
 			}
+			n++
 			c.walk(v.Index(i), sb, depth+1, nil)
 		}
 		sb.WriteString("]")
@@ -256,26 +347,50 @@ type fullDump struct {
 }
 
 func servicesOf(st *state.Store) map[svcKey]svcInfo {
-	out := map[svcKey]svcInfo{}
-	st.WalkAllTables(func(table string, item interface{}) bool {
-		if sn, ok := item.(*structs.ServiceNode); ok {
-			out[svcKey{strings.ToLower(sn.Node), strings.ToLower(sn.ServiceID), strings.ToLower(sn.PeerName)}] = svcInfo{sn.ServiceName, sn.ServiceTags}
-		}
-		return true
-	})
+	out, _ := servicesAndKindsOf(st)
 	return out
 }
 
+// servicesAndKindsOf: the service instances, and the (kind, name) pairs that upsertKindServiceName
+// would record for them (the kind of each local instance under its name; "connect-enabled" for
+// the destination of a proxy and for a connect-native service).
+func servicesAndKindsOf(st *state.Store) (map[svcKey]svcInfo, map[string]bool) {
+	out := map[svcKey]svcInfo{}
+	kinds := map[string]bool{}
+	st.WalkAllTables(func(table string, item interface{}) bool {
+		if sn, ok := item.(*structs.ServiceNode); ok {
+			out[svcKey{strings.ToLower(sn.Node), strings.ToLower(sn.ServiceID), strings.ToLower(sn.PeerName)}] = svcInfo{sn.ServiceName, sn.ServiceTags}
+			if sn.PeerName == "" {
+				kinds[strings.ToLower(string(sn.ServiceKind)+"\x00"+sn.ServiceName)] = true
+				if sn.ServiceKind == structs.ServiceKindConnectProxy && sn.ServiceProxy.DestinationServiceName != "" {
+					kinds[strings.ToLower(string(structs.ServiceKindConnectEnabled)+"\x00"+sn.ServiceProxy.DestinationServiceName)] = true
+				}
+				if sn.ServiceConnect.Native {
+					kinds[strings.ToLower(string(structs.ServiceKindConnectEnabled)+"\x00"+sn.ServiceName)] = true
+				}
+			}
+		}
+		return true
+	})
+	return out, kinds
+}
+
 func dumpStore(st *state.Store) *fullDump {
-	svcs := servicesOf(st)
-	sc := &canonCtx{lenient: false}
-	lc := &canonCtx{lenient: true, svcs: svcs}
+	svcs, kinds := servicesAndKindsOf(st)
+	wild := hasWildcard(st)
+	sc := &canonCtx{}
+	lc := &canonCtx{masks: mAll, svcs: svcs, kinds: kinds}
 	d := &fullDump{strict: tableDump{}, lenient: tableDump{}}
+	dialers := map[string]bool{}   // peering id -> dials
+	active := map[string]string{} // peering id -> active stream secret
+	acceptorSecrets := map[string]bool{}
+	var secretRows []*pbpeering.PeeringSecrets
 	st.WalkAllTables(func(table string, item interface{}) bool {
 		d.rows++
 		skip := projectedFields[table]
 		var row interface{} = item
-		if table == "prepared-queries" {
+		switch table {
+		case "prepared-queries":
 			// *queryWrapper{*structs.PreparedQuery; ct *CompiledTemplate}
 			rv := reflect.Indirect(reflect.ValueOf(item))
 			pq := rv.FieldByName("PreparedQuery").Interface()
@@ -284,14 +399,57 @@ func dumpStore(st *state.Store) *fullDump {
 				Query    interface{}
 				Compiled bool
 			}{pq, hasCT}
-		}
-		if table == "usage" {
+		case "usage":
 			ue := reflect.Indirect(reflect.ValueOf(item))
 			id, idx, cnt := ue.FieldByName("ID").String(), ue.FieldByName("Index").Uint(), ue.FieldByName("Count").Int()
 			d.usageRaw = append(d.usageRaw, fmt.Sprintf("%s index=%d count=%d", id, idx, cnt))
 			d.strict[table] = append(d.strict[table], fmt.Sprintf("{ID:%q,Index:%d,Count:%d}", id, idx, cnt))
 			if cnt != 0 {
 				d.lenient[table] = append(d.lenient[table], fmt.Sprintf("{ID:%q,Count:%d}", id, cnt))
+			}
+			return true
+		case "index":
+			ie := item.(*state.IndexEntry)
+			d.strict[table] = append(d.strict[table], fmt.Sprintf("{Key:%q,Value:%d}", ie.Key, ie.Value))
+			if indexRowMask(ie.Key) != 0 {
+				d.lenient[table] = append(d.lenient[table], fmt.Sprintf("{Key:%q,Value:0}", ie.Key))
+			} else {
+				d.lenient[table] = append(d.lenient[table], fmt.Sprintf("{Key:%q,Value:%d}", ie.Key, ie.Value))
+			}
+			return true
+		case "peering":
+			if p, ok := item.(*pbpeering.Peering); ok {
+				dialers[p.ID] = p.ShouldDial()
+			}
+		case "peering-secrets":
+			if p, ok := item.(*pbpeering.PeeringSecrets); ok {
+				active[p.PeerID] = p.GetStream().GetActiveSecretID()
+				secretRows = append(secretRows, p)
+			}
+		case "gateway-services":
+			if lc.unbackedWildcard(reflect.ValueOf(item)) {
+				var sb strings.Builder
+				sc.walk(reflect.ValueOf(row), &sb, 0, skip)
+				d.strict[table] = append(d.strict[table], sb.String())
+				return true
+			}
+		case "mesh-topology":
+			rv := reflect.Indirect(reflect.ValueOf(item))
+			up := rv.FieldByName("Upstream").FieldByName("Name").String()
+			_ = up
+			if rv.FieldByName("Refs").Len() == 0 && wild {
+				var sb strings.Builder
+				sc.walk(reflect.ValueOf(row), &sb, 0, skip)
+				d.strict[table] = append(d.strict[table], sb.String())
+				return true
+			}
+		case "kind-service-names":
+			ksn := item.(*state.KindServiceName)
+			var sb strings.Builder
+			sc.walk(reflect.ValueOf(row), &sb, 0, skip)
+			d.strict[table] = append(d.strict[table], sb.String())
+			if kinds[strings.ToLower(string(ksn.Kind)+"\x00"+ksn.Service.Name)] {
+				d.lenient[table] = append(d.lenient[table], sb.String())
 			}
 			return true
 		}
@@ -302,6 +460,28 @@ func dumpStore(st *state.Store) *fullDump {
 		d.lenient[table] = append(d.lenient[table], lb.String())
 		return true
 	})
+	// lenient: only the UUIDs of secrets held for peerings this cluster ACCEPTED count (a restore
+	// also records a dialing peer's active stream secret, which the online path never does)
+	for _, p := range secretRows {
+		if dialers[p.PeerID] {
+			continue
+		}
+		for _, id := range []string{p.GetEstablishment().GetSecretID(), p.GetStream().GetPendingSecretID(), p.GetStream().GetActiveSecretID()} {
+			if id != "" {
+				acceptorSecrets[strconv.Quote(id)] = true
+			}
+		}
+	}
+	var keep []string
+	for _, r := range d.lenient["peering-secret-uuids"] {
+		if acceptorSecrets[r] {
+			keep = append(keep, r)
+		}
+	}
+	if len(d.lenient["peering-secret-uuids"]) > 0 {
+		d.lenient["peering-secret-uuids"] = keep
+	}
+	_ = active
 	for _, td := range []tableDump{d.strict, d.lenient} {
 		for t := range td {
 			sort.Strings(td[t])
@@ -387,26 +567,110 @@ func diffTables(a, b tableDump) []tableDiff {
 // ---------------------------------------------------------------- read queries
 
 type queryResult struct {
-	name    string
-	strict  string
-	lenient string
+	name   string
+	idx    uint64
+	err    string
+	res    interface{}
+	svcs   map[svcKey]svcInfo
+	kinds  map[string]bool
+	wild   bool
+	strict string
+}
+
+// idxMask: the deviations that change the INDEX a query family reports.
+func idxMask(name string) maskSet {
+	switch strings.SplitN(name, ":", 2)[0] {
+	case "ServiceUsage", "NodeUsage", "PeeringUsage", "KVUsage", "ConfigEntryUsage":
+		return mUsage
+	case "GatewayServices", "DumpGatewayServices", "CheckConnectServiceNodes":
+		return mGatewayStamp
+	case "ServiceTopology":
+		return mGatewayStamp | mTopologyStamp
+	case "PeeringList", "PeeringTrustBundleList":
+		return mPeeringIndex
+	case "ServiceNamesOfKind":
+		return mStaleKindName
+	}
+	return 0
+}
+
+// kindNames: the result of ServiceNamesOfKind with, per name, whether an instance backs it.
+type kindNames struct {
+	Names  []string
+	Backed []bool
+}
+
+func sortCSN(l structs.CheckServiceNodes) {
+	c := &canonCtx{}
+	keys := make([]string, len(l))
+	for i := range l {
+		keys[i] = c.render(l[i])
+	}
+	sort.Sort(&csnSorter{l, keys})
+}
+
+type csnSorter struct {
+	l    structs.CheckServiceNodes
+	keys []string
+}
+
+func (s *csnSorter) Len() int           { return len(s.l) }
+func (s *csnSorter) Less(i, j int) bool { return s.keys[i] < s.keys[j] }
+func (s *csnSorter) Swap(i, j int) {
+	s.l[i], s.l[j] = s.l[j], s.l[i]
+	s.keys[i], s.keys[j] = s.keys[j], s.keys[i]
+}
+
+// hasWildcard: some gateway-services row is a wildcard row or was derived from one.
+func hasWildcard(st *state.Store) bool {
+	found := false
+	st.WalkAllTables(func(table string, item interface{}) bool {
+		if gs, ok := item.(*structs.GatewayService); ok && (gs.FromWildcard || gs.Service.Name == structs.WildcardSpecifier) {
+			found = true
+		}
+		return true
+	})
+	return found
+}
+
+func (q *queryResult) render(masks maskSet) string {
+	c := &canonCtx{masks: masks, svcs: q.svcs, kinds: q.kinds}
+	if masks&mWildcardUnbacked != 0 && q.wild && strings.HasPrefix(q.name, "ServiceTopology:") {
+		return "idx=* (topology of a store with wildcard gateways: masked)"
+	}
+	if kn, ok := q.res.(kindNames); ok {
+		var names []string
+		for i, n := range kn.Names {
+			if masks&mStaleKindName == 0 || kn.Backed[i] {
+				names = append(names, n)
+			}
+		}
+		if masks&mStaleKindName != 0 {
+			return fmt.Sprintf("idx=*%s %s", q.err, c.render(names))
+		}
+		return fmt.Sprintf("idx=%d%s %s", q.idx, q.err, c.render(names))
+	}
+	if idxMask(q.name)&masks != 0 {
+		return fmt.Sprintf("idx=*%s %s", q.err, c.render(q.res))
+	}
+	return fmt.Sprintf("idx=%d%s %s", q.idx, q.err, c.render(q.res))
 }
 
 // runQueries evaluates the fixed list of read queries on a store. Every entry records the
 // reported query index and the canonical result.
 func runQueries(st *state.Store, u *universe) []queryResult {
-	svcs := servicesOf(st)
-	sc := &canonCtx{}
-	lc := &canonCtx{lenient: true, svcs: svcs}
+	svcs, kinds := servicesAndKindsOf(st)
+	wild := hasWildcard(st)
 	var out []queryResult
+	em := structs.DefaultEnterpriseMetaInDefaultPartition()
 	add := func(name string, idx uint64, res interface{}, err error) {
 		e := ""
 		if err != nil {
 			e = " err=" + err.Error()
 		}
-		out = append(out, queryResult{name,
-			fmt.Sprintf("idx=%d%s %s", idx, e, sc.render(res)),
-			fmt.Sprintf("idx=%d%s %s", idx, e, lc.render(res))})
+		q := queryResult{name: name, idx: idx, err: e, res: res, svcs: svcs, kinds: kinds, wild: wild}
+		q.strict = q.render(0)
+		out = append(out, q)
 	}
 	for _, k := range u.keys {
 		idx, e, err := st.KVSGet(nil, k, nil)
@@ -417,44 +681,55 @@ func runQueries(st *state.Store, u *universe) []queryResult {
 		add("KVSList:"+p, idx, es, err)
 	}
 	{
-		idx, ss, err := st.SessionList(nil, nil)
+		idx, ss, err := st.SessionList(nil, em)
 		add("SessionList", idx, ss, err)
 	}
 	for _, n := range u.nodes {
-		idx, ss, err := st.NodeSessions(nil, n, nil)
+		idx, ss, err := st.NodeSessions(nil, n, em)
 		add("NodeSessions:"+n, idx, ss, err)
-		idx, cs, err := st.NodeChecks(nil, n, nil, "")
+		idx, cs, err := st.NodeChecks(nil, n, em, "")
 		add("NodeChecks:"+n, idx, cs, err)
-		idx, ns, err := st.NodeServices(nil, n, nil, "")
+		idx, ns, err := st.NodeServices(nil, n, em, "")
 		add("NodeServices:"+n, idx, ns, err)
 	}
 	for _, peer := range []string{"", u.peers[0]} {
-		idx, ns, err := st.Nodes(nil, nil, peer)
+		idx, ns, err := st.Nodes(nil, em, peer)
 		add("Nodes:"+peer, idx, ns, err)
-		idx, sl, err := st.ServiceList(nil, nil, peer)
+		idx, sl, err := st.ServiceList(nil, em, peer)
+		// the result is built by ranging over a Go map: a set, compared sorted
+		sort.Slice(sl, func(i, j int) bool { return sl[i].String() < sl[j].String() })
 		add("ServiceList:"+peer, idx, sl, err)
-		idx, sn, err := st.Services(nil, nil, peer, true)
+		idx, sn, err := st.Services(nil, em, peer, true)
 		add("Services:"+peer, idx, sn, err)
-		idx, nd, err := st.NodeDump(nil, nil, peer)
+		idx, nd, err := st.NodeDump(nil, em, peer)
 		add("NodeDump:"+peer, idx, nd, err)
-		idx, hc, err := st.ChecksInState(nil, "any", nil, peer)
+		idx, hc, err := st.ChecksInState(nil, "any", em, peer)
 		add("ChecksInState:any:"+peer, idx, hc, err)
 		for _, s := range u.svcNames {
-			idx, sn, err := st.ServiceNodes(nil, s, nil, peer)
+			idx, sn, err := st.ServiceNodes(nil, s, em, peer)
 			add("ServiceNodes:"+s+":"+peer, idx, sn, err)
-			idx, csn, err := st.CheckServiceNodes(nil, s, nil, peer)
+			idx, csn, err := st.CheckServiceNodes(nil, s, em, peer)
 			add("CheckServiceNodes:"+s+":"+peer, idx, csn, err)
-			idx, ccsn, err := st.CheckConnectServiceNodes(nil, s, nil, peer)
+			idx, ccsn, err := st.CheckConnectServiceNodes(nil, s, em, peer)
 			add("CheckConnectServiceNodes:"+s+":"+peer, idx, ccsn, err)
-			idx, sc2, err := st.ServiceChecks(nil, s, nil, peer)
+			idx, sc2, err := st.ServiceChecks(nil, s, em, peer)
 			add("ServiceChecks:"+s+":"+peer, idx, sc2, err)
 		}
 	}
 	for _, s := range u.svcNames {
-		idx, gs, err := st.GatewayServices(nil, s, nil)
+		idx, gs, err := st.GatewayServices(nil, s, em)
 		add("GatewayServices:"+s, idx, gs, err)
 		for _, kind := range []structs.ServiceKind{structs.ServiceKindTypical, structs.ServiceKindConnectProxy} {
-			idx, topo, err := st.ServiceTopology(nil, "dc1", s, kind, false, nil)
+			idx, topo, err := st.ServiceTopology(nil, "dc1", s, kind, false, em)
+			if err != nil {
+				// which of several failing chains is named depends on map order: keep the fact only
+				err = fmt.Errorf("topology-error")
+			}
+			if topo != nil {
+				// instances are gathered per upstream/downstream NAME by ranging over a Go map: compared sorted
+				sortCSN(topo.Upstreams)
+				sortCSN(topo.Downstreams)
+			}
 			add("ServiceTopology:"+s+":"+string(kind), idx, topo, err)
 		}
 		for _, mt := range []structs.IntentionMatchType{structs.IntentionMatchSource, structs.IntentionMatchDestination} {
@@ -470,7 +745,7 @@ func runQueries(st *state.Store, u *universe) []queryResult {
 	{
 		idx, gs, err := st.DumpGatewayServices(nil)
 		add("DumpGatewayServices", idx, gs, err)
-		idx, sd, err := st.ServiceDump(nil, "", false, nil, "")
+		idx, sd, err := st.ServiceDump(nil, "", false, em, "")
 		add("ServiceDump", idx, sd, err)
 		idx, vips, err := st.ServiceVirtualIPs()
 		add("ServiceVirtualIPs", idx, vips, err)
@@ -478,15 +753,16 @@ func runQueries(st *state.Store, u *universe) []queryResult {
 			structs.ServiceKindIngressGateway, structs.ServiceKindMeshGateway, structs.ServiceKindConnectEnabled} {
 			idx, kn, err := st.ServiceNamesOfKind(nil, kind)
 			// the rows carry the private RaftIndex: project it away as in the table dump
-			var names []string
+			names := kindNames{}
 			for _, k := range kn {
-				names = append(names, k.Service.String())
+				names.Names = append(names.Names, k.Service.String())
+				names.Backed = append(names.Backed, kinds[strings.ToLower(string(kind)+"\x00"+k.Service.Name)])
 			}
 			add("ServiceNamesOfKind:"+string(kind), idx, names, err)
 		}
-		idx, ces, err := st.ConfigEntries(nil, nil)
+		idx, ces, err := st.ConfigEntries(nil, em)
 		add("ConfigEntries", idx, ces, err)
-		idx, ixns, fromCE, err := st.Intentions(nil, nil)
+		idx, ixns, fromCE, err := st.Intentions(nil, em)
 		add("Intentions", idx, struct {
 			I structs.Intentions
 			F bool
@@ -515,17 +791,17 @@ func runQueries(st *state.Store, u *universe) []queryResult {
 			idx, exp, err := st.ExportedServicesForPeer(nil, pid, "dc1")
 			add("ExportedServicesForPeer:"+pid, idx, exp, err)
 		}
-		idx, toks, err := st.ACLTokenList(nil, true, true, "", "", "", nil, nil)
+		idx, toks, err := st.ACLTokenList(nil, true, true, "", "", "", nil, em)
 		add("ACLTokenList", idx, toks, err)
-		idx, pols, err := st.ACLPolicyList(nil, nil)
+		idx, pols, err := st.ACLPolicyList(nil, em)
 		add("ACLPolicyList", idx, pols, err)
-		idx, rls, err := st.ACLRoleList(nil, "", nil)
+		idx, rls, err := st.ACLRoleList(nil, "", em)
 		add("ACLRoleList", idx, rls, err)
-		idx, brs, err := st.ACLBindingRuleList(nil, "", nil)
+		idx, brs, err := st.ACLBindingRuleList(nil, "", em)
 		add("ACLBindingRuleList", idx, brs, err)
-		idx, ams, err := st.ACLAuthMethodList(nil, nil)
+		idx, ams, err := st.ACLAuthMethodList(nil, em)
 		add("ACLAuthMethodList", idx, ams, err)
-		idx, cos, err := st.Coordinates(nil, nil)
+		idx, cos, err := st.Coordinates(nil, em)
 		add("Coordinates", idx, cos, err)
 		idx, fss, err := st.FederationStateList(nil)
 		add("FederationStateList", idx, fss, err)
@@ -536,28 +812,19 @@ func runQueries(st *state.Store, u *universe) []queryResult {
 		idx, fgp, fgs, err := st.FeatureGatePolicyAndStatus(nil)
 		add("FeatureGates", idx, []interface{}{fgp, fgs}, err)
 	}
-	// usage: counts strictly, the reported index only in the strict rendering (finding 14)
 	{
 		idx, su, err := st.ServiceUsage(nil, false)
-		out = append(out, queryResult{"ServiceUsage", fmt.Sprintf("idx=%d %v %s", idx, err, sc.render(su)), fmt.Sprintf("%v %s", err, sc.render(su))})
+		add("ServiceUsage", idx, su, err)
 		idx, nu, err := st.NodeUsage()
-		out = append(out, queryResult{"NodeUsage", fmt.Sprintf("idx=%d %v %s", idx, err, sc.render(nu)), fmt.Sprintf("%v %s", err, sc.render(nu))})
+		add("NodeUsage", idx, nu, err)
 		idx, pu, err := st.PeeringUsage()
-		out = append(out, queryResult{"PeeringUsage", fmt.Sprintf("idx=%d %v %s", idx, err, sc.render(pu)), fmt.Sprintf("%v %s", err, sc.render(pu))})
+		add("PeeringUsage", idx, pu, err)
 		idx, ku, err := st.KVUsage()
-		out = append(out, queryResult{"KVUsage", fmt.Sprintf("idx=%d %v %s", idx, err, sc.render(ku)), fmt.Sprintf("%v %s", err, sc.render(ku))})
+		add("KVUsage", idx, ku, err)
 		idx, cu, err := st.ConfigEntryUsage()
-		out = append(out, queryResult{"ConfigEntryUsage", fmt.Sprintf("idx=%d %v %s", idx, err, sc.render(cu)), fmt.Sprintf("%v %s", err, sc.render(cu))})
+		add("ConfigEntryUsage", idx, cu, err)
 	}
 	return out
-}
-
-var usageQueries = map[string]bool{"ServiceUsage": true, "NodeUsage": true, "PeeringUsage": true, "KVUsage": true, "ConfigEntryUsage": true}
-
-func queryIndexOf(s string) uint64 {
-	var idx uint64
-	fmt.Sscanf(s, "idx=%d", &idx)
-	return idx
 }
 
 // canonResult renders a command result (the value FSM.Apply returned).
